@@ -174,7 +174,7 @@ Theorem C19_circular_relabel : forall {M} (o : numops M) (f : Z -> Z) mode al (c
   = res_map (relabel_pos f) (circular_layout_with o mode al coords (Ok c)).
 Proof. exact @circular_relabel. Qed.
 (** circular_layout with align_with given, for the GENERATED classification of its alignment block (now
-    CircAlignUnbound: UnboundLocalError for every input - known finding circular_align_unbound_name); proved for every
+    CircAlignUnbound: UnboundLocalError for every input - an observation, circular_layout is outside C19's statement); proved for every
     value of the fact, so a repair keeps this file compiling and changes what the statement says *)
 Theorem C19_circular_align_status : forall {M} (o : numops M), circ_status o circ_align.
 Proof. exact @circular_align_status. Qed.
